@@ -621,6 +621,41 @@ pub fn c17_tree_worker(tier: &str, k: usize, n: usize, ctx: &mut Ctx) {
     });
     crate::clear_current_case();
   }
+  // every mappings string of the C12 grammar whose running values go NEGATIVE (outside C12's domain:
+  // the decoder wraps them to huge indices) attached to a SourceMapSource and consumed by composites
+  {
+    let mut st = Striper::new(k, n);
+    crate::codec::for_each_grammar_string(false, &mut |raw| {
+      if !matches!(crate::refcodec::decode(raw), Err(crate::refcodec::DecodeError::Negative)) {
+        return;
+      }
+      if !st.mine() {
+        return;
+      }
+      let mut m = MapSpec::new(vec![], &["s0", "s1"], Some(&["ab\ncd", "x"]), &["n0"]);
+      m.raw_mappings = Some(raw.to_string());
+      let leaf = Term::sms("ab\ncd\n", "neg.js", m);
+      for w in [
+        Term::replace(leaf.clone(), vec![crate::term::Repl::new(1, 4, "X\n")]),
+        Term::concat(vec![Term::orig("q", "q.js"), Term::cached(leaf.clone())]),
+      ] {
+        crate::set_current_case(&w);
+        ctx.states += 1;
+        ctx.evaluations += 1;
+        ctx.transitions += 4;
+        let src = w.build();
+        for columns in [true, false] {
+          if let Err(e) = crate::observe::map_of(src.as_ref(), columns) {
+            tc::report_panic(ctx, &w, &format!("map({columns})"), &e);
+          }
+          if let Err(e) = crate::observe::stream(src.as_ref(), columns, false) {
+            tc::report_panic(ctx, &w, &format!("stream({columns})"), &e);
+          }
+        }
+      }
+    });
+    crate::clear_current_case();
+  }
   let all = |_: &Term| true;
   sweep(ctx, &wild_scope(tier), k, n, &all, &mut |c, t| tc::all_methods_return(c, t));
   let mut st = Striper::new(k, n);
